@@ -13,6 +13,7 @@ import (
 	"os"
 	"os/exec"
 	"runtime"
+	"runtime/pprof"
 	"strconv"
 	"strings"
 	"sync"
@@ -82,6 +83,18 @@ func WorkerMain() {
 						r.Err = "marshal: " + e.Error()
 					}
 					r.Res = b
+				}
+			}
+			if os.Getenv("VERIF_MEMSTAT") != "" {
+				var ms runtime.MemStats
+				runtime.GC()
+				runtime.ReadMemStats(&ms)
+				fmt.Fprintf(os.Stderr, "MEMSTAT live=%dMB sys=%dMB goroutines=%d\n", ms.HeapAlloc>>20, ms.Sys>>20, runtime.NumGoroutine())
+				if f := os.Getenv("VERIF_HEAPPROF"); f != "" {
+					if fh, e := os.Create(f); e == nil {
+						pprof.WriteHeapProfile(fh)
+						fh.Close()
+					}
 				}
 			}
 			b, _ := json.Marshal(r)
